@@ -60,7 +60,11 @@ impl<'t> Int<'t> {
     }
 
     pub fn add_ast(&mut self, ast: Ast<'t>) -> Result<'t, ()> {
-        Self::default().ast_changes(self, ast)?;
+        // Interpret the chunk into a separate delta and commit it only on success, so
+        // that a rejected chunk leaves the session as it was.
+        let mut changes = Self::default();
+        self.ast_changes(&mut changes, ast)?;
+        *self = unsafe { std::mem::take(self).append_int(changes) };
         Ok(())
     }
 
